@@ -266,6 +266,31 @@ Theorem C11_statistics_identical_on_all_nodes :
              snd (Points.step gts dur mult election s1 (Points.OEpoch e)) = snd (Points.step gts dur mult election s2 (Points.OEpoch e))).
 Proof. exact PointsProofs.reachable_nodes_agree. Qed.
 
+(* The store of an epoch point in compoundPoints.GetPoint is guarded by `if compound.IsFinished(tick)`, and the theorem
+   above needs that guard. With it, a question about an epoch that is still running adds nothing to the epoch cache of the
+   node that is asked ... *)
+From ZV Require PointsStale.
+Theorem C11_running_epoch_query_stores_nothing :
+  forall (gts dur mult : Z) (election : list Points.mom -> Z -> option Points.elect) pc ec c e,
+  Points.is_finished gts c (Points.edur dur mult) e = false ->
+  forall e' p, Points.c_get (snd (Points.get_epoch gts dur mult election pc ec c e)) e' = Some p -> Points.c_get ec e' = Some p.
+Proof. exact PointsStale.running_epoch_query_stores_nothing. Qed.
+
+(* ... without it (PointsStale.get_epoch_g false; get_epoch_g true is Points.get_epoch by reflexivity) the EndHash test
+   alone does not protect the cache: there is a chain c, a next momentum m behind the end of epoch e with nothing between
+   the frontier of c and that end, such that the node that was asked for epoch e at c (running) and again at c ++ [m]
+   (finished) answers differently from a node with an empty consensus DB on the same chain c ++ [m] - the stored point has
+   the end block of the finished epoch but lacks the periods that had not started. The guarded code answers alike. *)
+Theorem C11_epoch_store_guard_is_load_bearing :
+  exists gts dur mult election c m e,
+    let c' := c ++ [m] in
+    Points.is_finished gts c (Points.edur dur mult) e = false /\ Points.is_finished gts c' (Points.edur dur mult) e = true /\
+    (let '(_, pc1, ec1) := PointsStale.get_epoch_g gts dur mult election false [] [] c e in
+     fst (fst (PointsStale.get_epoch_g gts dur mult election false pc1 ec1 c' e)) <> Points.fresh_epoch gts dur mult election c' e) /\
+    (let '(_, pc1, ec1) := Points.get_epoch gts dur mult election [] [] c e in
+     fst (fst (Points.get_epoch gts dur mult election pc1 ec1 c' e)) = Points.fresh_epoch gts dur mult election c' e).
+Proof. exact PointsStale.unguarded_store_goes_stale. Qed.
+
 (* the epoch cursor the theorems above are about is the code: CanPerformEpochUpdate / checkAndPerformUpdateEpoch /
    CanPerformUpdate (vm/embedded/implementation/common.go) as translated by go2coq on every run; the end time of epoch
    LastEpoch+1 (epoch ticker), the frontier momentum and the result of Save are inputs of the translations *)
